@@ -338,6 +338,92 @@ def run(chk):
                 chk.violation(r_br, key + ":marker", "%s: the record marker is not 4 bytes" % key, f["file"], lb[i]["l"])
     check_reader_bracket(chk, fx, r_br)
 
+    # ---- C07.wrap: formatted writers start a new line at every block boundary
+    r_wr = chk.rule("C07.wrap", "in every formatted array writer the counter of the line-wrap test (c % nColumns) restarts at each block boundary - it is the induction variable of a loop nested in the block loop, or it is reset to 0 when c % maxBlockSize == 0 - because the size arithmetic and the readers count lines per block", floor=4)
+    fo_w = chk.facts(["opm/io/eclipse/EclOutput.cpp"])
+    for f in fo_w.fns:
+        if not f.get("body") or not f["file"].endswith("EclOutput.cpp") or not f["n"].startswith("writeFormatted") or "Array" not in f["n"]:
+            continue
+        loops = []
+
+        def visit(n, stack):
+            if n["k"] in ("For", "While", "Do", "ForRange"):
+                loops.append((n, list(stack)))
+                stack = stack + [n]
+            for v in n.values():
+                for y in (v if isinstance(v, list) else [v]):
+                    if isinstance(y, dict) and "k" in y:
+                        visit(y, stack)
+        visit(f["body"], [])
+        tests = []
+        if "maxBlockSize" not in show(f["body"]):
+            # no block structure at all: right only if a block holds a whole number of lines
+            hx = chk.facts(["opm/io/eclipse/EclOutput.cpp"], files_re="^/repo/opm/io/eclipse/EclIOdata.hpp$")
+            cv = {v["n"]: v.get("ev") for v in hx.vars}
+            mb, nc = cv.get("MaxNumBlockChar"), cv.get("numColumnsChar")
+            key = "%s:unblocked" % f["n"]
+            chk.instance(r_wr, key, sample=dict(function=f["q"], block_elements=mb, columns=nc))
+            if mb is None or nc is None:
+                chk.fail_broken("C07.wrap: MaxNumBlockChar / numColumnsChar not found in EclIOdata.hpp")
+            elif mb % nc != 0:
+                chk.violation(r_wr, key, "%s writes CHAR arrays without block structure, which is right only while a block (%d elements) holds a whole number of lines (%d per line)" % (f["q"], mb, nc), f["file"], f["l"])
+            continue
+        for n in walk(f["body"]):
+            if n["k"] == "Bin" and n.get("op") == "%" and strip(n["c"][1])["k"] == "Ref" and strip(n["c"][1])["n"] == "nColumns":
+                vs = [x["n"] for x in walk(n["c"][0]) if x["k"] == "Ref" and x.get("d") in ("Var", "Parm")]
+                if len(vs) == 1:
+                    tests.append((vs[0], n))
+        for v, n in tests:
+            # (a) induction variable of a nested loop
+            nested_iv = False
+            for lp, outer in loops:
+                if lp["k"] == "For" and isinstance(lp.get("init"), dict) and lp["init"]["k"] == "Decl" and lp["init"]["vars"][0]["n"] == v and outer and any(x is n for x in walk(lp["body"])):
+                    nested_iv = True
+            # (b) reset at the block boundary
+            reset = False
+            for i_ in walk(f["body"]):
+                if i_["k"] == "If" and "maxBlockSize" in show(i_["cond"]) and "%" in show(i_["cond"]) and v in show(i_["cond"]):
+                    for a_ in walk(i_["then"]):
+                        if a_["k"] == "Bin" and a_.get("asg") and a_["op"] == "=" and strip(a_["c"][0]).get("n") == v and strip(a_["c"][1]).get("k") == "Int" and strip(a_["c"][1])["v"] == 0:
+                            reset = True
+            # (c) the variable is a size that is itself block-local (declared inside the block loop)
+            local_decl = False
+            for lp, outer in loops:
+                for d in walk(lp["body"]):
+                    if d["k"] == "Decl" and any(x["n"] == v for x in d["vars"]) and any(y is n for y in walk(lp["body"])):
+                        local_decl = True
+            key = "%s:%s@%d" % (f["n"], v, n["l"] - f["l"])
+            chk.instance(r_wr, key, sample=dict(function=f["q"], counter=v, test=show(n)[:50], nested_induction_variable=nested_iv, reset_at_block_boundary=reset, block_local=local_decl))
+            if not (nested_iv or reset or local_decl):
+                chk.violation(r_wr, key, "%s wraps lines on `%s`, but `%s` neither restarts with each block of the array nor is reset at the block boundary: from the second block on the line breaks fall at other elements than sizeOnDiskFormatted and the readers assume, and the arrays that follow cannot be located" % (f["q"], show(n)[:40], v), f["file"], n["l"])
+
+    # ---- C07.fmtbuf: snprintf buffers hold the longest text their format can produce
+    r_fb = chk.rule("C07.fmtbuf", "every snprintf of a floating-point value in EclOutput.cpp (%W.PE) writes into a buffer with room for the longest result - sign, digit, point, P digits, E, exponent sign and 3 exponent digits for double (2 for float) - plus the terminator; a shorter buffer silently drops the last exponent digit", floor=4)
+    fo = chk.facts(["opm/io/eclipse/EclOutput.cpp"])
+    for f in fo.fns:
+        if not f.get("body") or not f["file"].endswith("EclOutput.cpp"):
+            continue
+        for n in walk(f["body"]):
+            if n["k"] != "Call" or not (n.get("fn") or "").endswith("snprintf") or len(n.get("a", [])) < 4:
+                continue
+            fmt_ = strip(n["a"][2])
+            if fmt_["k"] != "Str":
+                continue
+            m_ = re.match(r"^%(\d+)\.(\d+)[Ee]$", fmt_["v"])
+            if not m_:
+                continue
+            W, P = int(m_.group(1)), int(m_.group(2))
+            size = strip(n["a"][1]).get("ev")
+            at = (strip(n["a"][3]).get("t") or "")
+            expd = 2 if at.replace("const ", "").strip() == "float" else 3
+            need = max(W, 1 + 1 + 1 + P + 1 + 1 + expd) + 1
+            key = "%s@%s" % (f["n"], fmt_["v"])
+            chk.instance(r_fb, key, sample=dict(function=f["q"], format=fmt_["v"], argument_type=at, buffer_bytes=size, needed=need))
+            if size is None:
+                chk.fail_broken("C07.fmtbuf: size argument of snprintf in %s is not a compile-time constant" % f["q"])
+            elif size < need:
+                chk.violation(r_fb, key, "%s formats a %s with \"%s\" into a buffer of %d bytes; a negative value with a %d-digit exponent needs %d: snprintf drops the last exponent digit and the file holds another number" % (f["q"], at, fmt_["v"], size, expd, need), f["file"], n["l"])
+
     # ---- C07.fmtexp: the formatted DOUB writer drops the 'D' for 3-digit exponents and may emit a leading '-'
     r_fe = chk.rule("C07.fmtexp", "formatted DOUB: the writer omits the exponent letter exactly for 3-digit exponents; the reader re-inserts it before the exponent's sign, never before the mantissa's", floor=2)
     wd = fx.fn1("Opm::EclIO::EclOutput::make_doub_string_ecl")
